@@ -915,3 +915,72 @@ def r6b_select(toks, stats, env="env", fused=()):
     toks[s:cb + 1] = new
     stats["R6b.select"] = stats.get("R6b.select", 0) + 1
     return toks
+
+
+# ------------------------------------------------------------------------------------------------
+# R9: string literals -> interned integer ids (distinct literals get distinct ids, so distinctness is arithmetic)
+# ------------------------------------------------------------------------------------------------
+import hashlib as _hashlib
+def lit_id(text):
+    """stable id of a string literal's contents (the text between the quotes, escapes left as written)"""
+    return int(_hashlib.sha256(text.encode()).hexdigest()[:12], 16)
+
+def r9_strlit(toks, stats, wrap="Name::lit({})"):
+    out = []
+    for t in toks:
+        if t.k == "str" and t.s.startswith('"'):
+            new = T(wrap.format(lit_id(t.s[1:-1])))
+            for x in new: x.line = t.line; x.col = t.col
+            new[0].sp = t.sp
+            out.extend(new)
+            stats["R9.strlit"] = stats.get("R9.strlit", 0) + 1
+        else:
+            out.append(t)
+    return out
+
+def expand_lits(text):
+    """`$LIT("x")` in spec/overlay text -> the id R9 gives the literal "x" """
+    import re as _re
+    return _re.sub(r'\$LIT\("((?:[^"\\]|\\.)*)"\)', lambda m: str(lit_id(m.group(1))), text)
+
+
+# ------------------------------------------------------------------------------------------------
+# R10b: array-literal iterator idioms -> prelude functions with a sequence-level spec
+#   [a, b, ..].into_iter().any(|f| f)            -> vx_arr_any([a, b, ..])
+#   [a, b, ..].into_iter().flatten().collect()   -> vx_collect_some([a, b, ..])
+# ------------------------------------------------------------------------------------------------
+def r10_array_idioms(toks, stats):
+    pats = [(pat(".into_iter().any(|f| f)"), "vx_arr_any"), (pat(".into_iter().flatten().collect()"), "vx_collect_some")]
+    changed = True
+    while changed:
+        changed = False
+        m = match_table(toks)
+        for i, t in enumerate(toks):
+            if t.s == "[" and t.k == "o":
+                c = m[i]
+                for p, fn in pats:
+                    if [x.s for x in toks[c + 1:c + 1 + len(p)]] == p:
+                        toks[c + 1:c + 1 + len(p)] = [Tok("c", ")", None, 0, False)]
+                        toks[i:i] = T(fn + "(")
+                        stats["R10." + fn] = stats.get("R10." + fn, 0) + 1
+                        changed = True
+                        break
+                if changed: break
+    return toks
+
+def drop_nested_fns(toks, stats):
+    """remove `fn name(..) {..}` items nested in a function body (they are extracted as items of their own)"""
+    while True:
+        m = match_table(toks)
+        hit = None
+        depth = 0
+        for i, t in enumerate(toks):
+            if t.s == "fn" and i + 1 < len(toks) and toks[i + 1].k == "id":
+                j = i
+                while toks[j].s != "{":
+                    if toks[j].k == "o": j = m[j]
+                    j += 1
+                hit = (i, m[j]); break
+        if not hit: return toks
+        del toks[hit[0]:hit[1] + 1]
+        stats["R14.drop_nested_fn"] = stats.get("R14.drop_nested_fn", 0) + 1
